@@ -1,10 +1,12 @@
 package main
 
 import (
+	"fmt"
 	"go/ast"
 	"go/token"
 	"go/types"
 	"sort"
+	"strings"
 
 	"golang.org/x/tools/go/cfg"
 	"golang.org/x/tools/go/packages"
@@ -108,7 +110,22 @@ type Spec struct {
 	// Edge returns facts generated/killed on the edge b -> b.Succs[i], where
 	// cond is the branch condition evaluated last in b (may be nil).
 	Edge func(b *cfg.Block, i int, cond ast.Expr, in Facts) (gen, kill []string)
+	// Global, when set, makes the analysis follow calls to private helpers of
+	// the same package (bounded depth): the facts selected by Global flow into
+	// the callee, and the callee's exit facts (selected by Global) flow back;
+	// for a helper whose last result is an error assigned to a variable, the
+	// facts holding only on its `return nil` exits / only on its error exits are
+	// attached to the success / failure edge of the caller's test of that variable.
+	Global func(fact string) bool
+	// Observe, when set, is called with the facts before every node of the
+	// analysed function and of every helper the analysis descends into (the
+	// last call for a node carries the final facts).
+	Observe func(fl *Flow, n ast.Node, before Facts)
+	depth   int
+	id      int
 }
+
+var specCounter int
 
 type Sol struct {
 	F      *Flow
@@ -148,6 +165,10 @@ func branchCond(b *cfg.Block) ast.Expr {
 }
 
 func (f *Flow) Solve(spec Spec) *Sol {
+	if spec.id == 0 {
+		specCounter++
+		spec.id = specCounter
+	}
 	s := &Sol{F: f, Spec: spec, Before: map[ast.Node]Facts{}, After: map[ast.Node]Facts{},
 		In: map[*cfg.Block]Facts{}, Out: map[*cfg.Block]Facts{}}
 	if len(f.G.Blocks) == 0 {
@@ -231,9 +252,15 @@ func (f *Flow) Solve(spec Spec) *Sol {
 			cur := in.clone()
 			for _, n := range b.Nodes {
 				s.Before[n] = cur.clone()
+				if spec.Observe != nil {
+					spec.Observe(f, n, s.Before[n])
+				}
 				if spec.Node != nil {
 					gen, kill := spec.Node(n, cur)
 					cur = apply(cur, gen, kill)
+				}
+				if spec.Global != nil {
+					cur = f.applyHelpers(spec, n, cur)
 				}
 				s.After[n] = cur.clone()
 			}
@@ -245,6 +272,9 @@ func (f *Flow) Solve(spec Spec) *Sol {
 				if spec.Edge != nil {
 					gen, kill := spec.Edge(b, i, cond, cur)
 					o = apply(o, gen, kill)
+				}
+				if spec.Global != nil && cond != nil {
+					o = f.applyPending(o, cond, i)
 				}
 				outs[i] = o
 			}
@@ -514,5 +544,222 @@ func (e *Events) edgeFn(pkg *packages.Package) func(b *cfg.Block, i int, cond as
 	}
 	return func(b *cfg.Block, i int, cond ast.Expr, in Facts) ([]string, []string) {
 		return e.EdgeGen(pkg, b, i, cond), nil
+	}
+}
+
+// ---------------------------------------------------------------------------
+// interprocedural extension: private helpers of the same package
+
+type helperSummary struct {
+	all, onNil, onErr Facts // facts at all normal exits / only at `return nil` exits / only at error exits
+	errResult         bool
+}
+
+var helperMemo = map[string]*helperSummary{}
+
+// inlinable returns the declared private helper called by c, if any.
+func (f *Flow) inlinable(c *ast.CallExpr) *FuncInfo {
+	cal := callee(f.Info, c)
+	if cal == nil || cal.Exported() {
+		return nil
+	}
+	fi := f.W.Decls[cal]
+	if fi == nil || fi.Pkg != f.Pkg {
+		return nil
+	}
+	return fi
+}
+
+func (f *Flow) summarise(spec Spec, fi *FuncInfo, entry Facts) *helperSummary {
+	key := fmt.Sprintf("%d|%v|%d|%v", spec.id, spec.Must, spec.depth, entry.Keys()) + "|" + fi.Pkg.PkgPath + "." + fi.Name()
+	if hs, ok := helperMemo[key]; ok {
+		return hs
+	}
+	helperMemo[key] = &helperSummary{all: Facts{}, onNil: Facts{}, onErr: Facts{}} // recursion guard
+	sub := spec
+	sub.depth = spec.depth + 1
+	sub.Init = entry.Keys()
+	fl := f.W.FlowOf(fi)
+	sol := fl.Solve(sub)
+	hs := &helperSummary{}
+	sig := fi.Obj.Type().(*types.Signature)
+	hs.errResult = sig.Results().Len() > 0 && isErrorType(sig.Results().At(sig.Results().Len()-1).Type())
+	var all, onNil, onErr Facts
+	join := func(acc Facts, x Facts, first bool) Facts {
+		g := Facts{}
+		for k := range x {
+			if spec.Global(k) {
+				g[k] = true
+			}
+		}
+		if first {
+			return g
+		}
+		if spec.Must {
+			return meet(acc, g)
+		}
+		for k := range g {
+			acc[k] = true
+		}
+		return acc
+	}
+	nAll, nNil, nErr := 0, 0, 0
+	for _, ex := range fl.Exits() {
+		if ex.Panic {
+			continue
+		}
+		at := sol.AtExit(ex)
+		if at == nil {
+			continue
+		}
+		all = join(all, at, nAll == 0)
+		nAll++
+		if hs.errResult && ex.Ret != nil && len(ex.Ret.Results) > 0 {
+			last := ex.Ret.Results[len(ex.Ret.Results)-1]
+			if isNilIdent(fi.Pkg.TypesInfo, last) {
+				onNil = join(onNil, at, nNil == 0)
+				nNil++
+			} else if provablyNonNil(fi.Pkg.TypesInfo, last, at) {
+				onErr = join(onErr, at, nErr == 0)
+				nErr++
+			} else {
+				// may be nil or not: belongs to both
+				onNil = join(onNil, at, nNil == 0)
+				nNil++
+				onErr = join(onErr, at, nErr == 0)
+				nErr++
+			}
+		}
+	}
+	orEmpty := func(x Facts) Facts {
+		if x == nil {
+			return Facts{}
+		}
+		return x
+	}
+	hs.all, hs.onNil, hs.onErr = orEmpty(all), orEmpty(onNil), orEmpty(onErr)
+	helperMemo[key] = hs
+	return hs
+}
+
+// provablyNonNil: a composite literal, &T{}, errors.New/fmt.Errorf, or a
+// variable known non-nil by a condition fact.
+func provablyNonNil(info *types.Info, e ast.Expr, at Facts) bool {
+	e = unparen(e)
+	if litOf(e) != nil {
+		return true
+	}
+	if c, ok := e.(*ast.CallExpr); ok {
+		if cal := callee(info, c); cal != nil && cal.Pkg() != nil && (cal.Pkg().Path() == "errors" && cal.Name() == "New" || cal.Pkg().Path() == "fmt" && cal.Name() == "Errorf") {
+			return true
+		}
+	}
+	if id, ok := e.(*ast.Ident); ok {
+		return at.Has(id.Name+"=nonnil") || at.Has("nonnil:"+id.Name)
+	}
+	return false
+}
+
+func (f *Flow) applyHelpers(spec Spec, n ast.Node, cur Facts) Facts {
+	if spec.depth >= 3 {
+		return cur
+	}
+	if _, isGo := n.(*ast.GoStmt); isGo {
+		return cur
+	}
+	if _, isDefer := n.(*ast.DeferStmt); isDefer {
+		return cur
+	}
+	for _, c := range callsInEvalOrder(n) {
+		fi := f.inlinable(c)
+		if fi == nil {
+			continue
+		}
+		entry := Facts{}
+		for k := range cur {
+			if spec.Global(k) {
+				entry[k] = true
+			}
+		}
+		hs := f.summarise(spec, fi, entry)
+		if spec.Must {
+			// facts of the caller survive the call; the callee adds what it guarantees
+			for k := range hs.all {
+				cur[k] = true
+			}
+		} else {
+			for k := range hs.all {
+				cur[k] = true
+			}
+			for k := range hs.onNil {
+				cur[k] = true
+			}
+			for k := range hs.onErr {
+				cur[k] = true
+			}
+		}
+		// error result bound to a variable: remember the edge-specific facts
+		if hs.errResult {
+			if as, ok := n.(*ast.AssignStmt); ok && len(as.Rhs) == 1 && unparen(as.Rhs[0]) == ast.Expr(c) {
+				if id, ok := unparen(as.Lhs[len(as.Lhs)-1]).(*ast.Ident); ok && id.Name != "_" {
+					for k := range cur {
+						if strings.HasPrefix(k, "onnil:"+id.Name+"|") || strings.HasPrefix(k, "onerr:"+id.Name+"|") {
+							delete(cur, k)
+						}
+					}
+					for k := range hs.onNil {
+						cur["onnil:"+id.Name+"|"+k] = true
+					}
+					for k := range hs.onErr {
+						cur["onerr:"+id.Name+"|"+k] = true
+					}
+				}
+			}
+		}
+	}
+	return cur
+}
+
+// applyPending turns "onnil:v|F" / "onerr:v|F" into F on the matching edge of a nil test of v.
+func (f *Flow) applyPending(o Facts, cond ast.Expr, i int) Facts {
+	be, ok := unparen(cond).(*ast.BinaryExpr)
+	if !ok || (be.Op != token.NEQ && be.Op != token.EQL) {
+		return o
+	}
+	var id *ast.Ident
+	if isNilIdent(f.Info, be.Y) {
+		id, _ = unparen(be.X).(*ast.Ident)
+	} else if isNilIdent(f.Info, be.X) {
+		id, _ = unparen(be.Y).(*ast.Ident)
+	}
+	if id == nil {
+		return o
+	}
+	isNil := (be.Op == token.EQL) == (i == 0)
+	for k := range o {
+		if isNil && strings.HasPrefix(k, "onnil:"+id.Name+"|") {
+			o[k[len("onnil:"+id.Name+"|"):]] = true
+		}
+		if !isNil && strings.HasPrefix(k, "onerr:"+id.Name+"|") {
+			o[k[len("onerr:"+id.Name+"|"):]] = true
+		}
+	}
+	for k := range o {
+		if strings.HasPrefix(k, "onnil:"+id.Name+"|") || strings.HasPrefix(k, "onerr:"+id.Name+"|") {
+			delete(o, k)
+		}
+	}
+	return o
+}
+
+// globalPrefixes builds a Global predicate from fact prefixes.
+func globalPrefixes(ps ...string) func(string) bool {
+	return func(f string) bool {
+		for _, p := range ps {
+			if strings.HasPrefix(f, p) {
+				return true
+			}
+		}
+		return false
 	}
 }
